@@ -110,6 +110,10 @@ pub trait Stage: Sync + Send + 'static {
     fn isolate(&self) -> bool {
         true
     }
+    /// Signature of a worker death for this case (refines the generic `worker-death`).
+    fn classify_death(&self, _case: &Self::Case) -> String {
+        "worker-death".to_string()
+    }
     /// Extra key/values to put into the evidence (e.g. exhaustive sub-space notes).
     fn extra(&self) -> Value {
         Value::Null
@@ -369,7 +373,7 @@ fn run_case<S: Stage>(stage: &S, prop: &str, case: &S::Case, worker: &mut Option
         Ok(o) => o,
         Err(how) => {
             *worker = None;
-            Outcome::violation("worker-death", format!("the process executing the case {how} (crash, abort, stack overflow or allocation failure in the code under test)"))
+            Outcome::violation(stage.classify_death(case), format!("the process executing the case {how} (crash, abort, stack overflow or allocation failure in the code under test)"))
         }
     }
 }
@@ -504,7 +508,7 @@ impl<S: Stage> DynStage for S {
                             }
                             match viol {
                                 Some((kind, detail)) => {
-                                    if kind == "worker-death" {
+                                    if kind.starts_with("worker-death") {
                                         deaths.set(deaths.get() + 1);
                                     }
                                     if !failed.get() {
